@@ -15,14 +15,15 @@ import (
 // C09Case: a file content, how its base offset is assigned (preceding files of a file set
 // or SetOffset directly) and the arguments tried at every position of the file.
 type C09Case struct {
-	Data      []byte   `json:"data"`
-	PreLens   []int    `json:"preLens"`   // lengths of the files added before it
-	SetOffset int      `json:"setOffset"` // > 0: File.SetOffset(n) instead of a file set
-	Runes     []rune   `json:"runes"`
-	Strs      [][]byte `json:"strs"`
-	Words     []string `json:"words"`
-	Regexps   []string `json:"regexps"`
-	TakeN     []int    `json:"takeN"` // Readf functions: consume min(n, len) bytes
+	Data        []byte   `json:"data"`
+	PreLens     []int    `json:"preLens"`   // lengths of the files added before it
+	SetOffset   int      `json:"setOffset"` // > 0: File.SetOffset(n) instead of a file set
+	Runes       []rune   `json:"runes"`
+	Strs        [][]byte `json:"strs"`
+	Words       []string `json:"words"`
+	Regexps     []string `json:"regexps"`
+	TakeN       []int    `json:"takeN"`                 // Readf functions: consume min(n, len) bytes
+	ReaderFirst bool     `json:"readerFirst,omitempty"` // NewReader before the base offset is assigned
 }
 
 func (c *C09Case) Describe() string {
@@ -111,6 +112,7 @@ func genC09(t *rapid.T) interface{} {
 	}
 	c.Regexps = []string{"a+", "a|ab", "ab|a", "(a)(b)?", "\\s+", genRegexp(t), genRegexp(t)}
 	c.TakeN = []int{1, rapid.IntRange(1, 6).Draw(t, "take")}
+	c.ReaderFirst = rapid.IntRange(0, 2).Draw(t, "readerFirst") == 0
 	return c
 }
 
@@ -122,6 +124,10 @@ func checkC09(ci interface{}, st *Stats) error {
 	c := ci.(*C09Case)
 	f := text.NewFile("main", c.Data)
 	d := normCRLF(c.Data)
+	var r *text.Reader
+	if c.ReaderFirst {
+		r = text.NewReader(f)
+	}
 	base := 1
 	switch {
 	case c.SetOffset > 0:
@@ -141,7 +147,9 @@ func checkC09(ci interface{}, st *Stats) error {
 	if f.Len() != len(d) {
 		return fmt.Errorf("File.Len() = %d, CRLF-normalised content has %d bytes", f.Len(), len(d))
 	}
-	r := text.NewReader(f)
+	if r == nil {
+		r = text.NewReader(f)
+	}
 	// a second reader and file with the regexps used in a different order must agree (cache keyed by expression)
 	for o := 0; o <= len(d); o++ {
 		pos := parsley.Pos(base + o)
@@ -203,6 +211,9 @@ func checkC09(ci interface{}, st *Stats) error {
 			re, err := regexp.Compile(ex)
 			if err != nil || re.Match(nil) {
 				continue // outside the documented domain
+			}
+			if _, err := regexp.Compile("(?:" + ex + ")"); err != nil {
+				continue // e.g. an unterminated \\Q quote: not an expression that can be embedded
 			}
 			var loc []int
 			if o < len(d) {
@@ -283,11 +294,11 @@ func checkC09(ci interface{}, st *Stats) error {
 			wantErr, wantPos := "", -1
 			switch {
 			case m == text.WsNone && e > o:
-				wantErr, wantPos = "whitespaces are not allowed", o
+				wantErr, wantPos = wsErrText[0], o
 			case m == text.WsSpaces && nl >= 0:
-				wantErr, wantPos = "new line is not allowed", nl
+				wantErr, wantPos = wsErrText[1], nl
 			case m == text.WsSpacesForceNl && nl < 0:
-				wantErr, wantPos = "was expecting a new line", e
+				wantErr, wantPos = wsErrText[3], e
 			}
 			if int(np) != base+e {
 				return fmt.Errorf("SkipWhitespaces(mode %d) at offset %d of %q skipped to %d, the whitespace run ends at %d", m, o, d, int(np)-base, e)
